@@ -79,6 +79,77 @@ def tuples(text):
     return [(int(a), int(b)) for a, b in r]
 
 
+SRC_FILES = ["src/constants.rs", "src/search.rs", "src/uci.rs", "src/autoplay.rs", "src/chess/mod.rs", "src/chess/piece.rs",
+             "src/chess/scores.rs", "src/chess/zobrist.rs", "src/chess/move_struct.rs", "src/chess/position.rs"]
+
+
+def crate_text():
+    out = []
+    for f in SRC_FILES:
+        p = os.path.join(REPO, f)
+        if os.path.exists(p):
+            out.append(strip_comments(open(p, encoding="utf-8").read()))
+    return "\n".join(out)
+
+
+def const_expr(name, depth=0):
+    """right-hand side of `const NAME: T = <expr>;` anywhere in the crate (a harmless clean-up may name a literal)"""
+    need(depth < 8, "constant %s: definitions nest too deeply" % name)
+    text = crate_text()
+    m = re.search(r"\bconst\s+%s\s*:[^=]*=" % re.escape(name), text)
+    need(m, "named constant %s not found" % name)
+    depth_b = 0
+    j = m.end()
+    while j < len(text):
+        c = text[j]
+        if c in "([{":
+            depth_b += 1
+        elif c in ")]}":
+            depth_b -= 1
+        elif c == ";" and depth_b == 0:
+            break
+        j += 1
+    return text[m.end():j].strip()
+
+
+def int_value(expr, what, depth=0):
+    """integer value of a literal expression over digits, + * ( ), `as T` casts and named constants of the crate"""
+    e = re.sub(r"\bas\s+\w+", "", expr).replace("_", "_")
+    def repl(mm):
+        tok = mm.group(0)
+        name = tok.split("::")[-1]
+        return "(%d)" % int_value(const_expr(name, depth + 1), what, depth + 1)
+    e = re.sub(r"(?:[A-Za-z_][A-Za-z_0-9]*::)*[A-Za-z_][A-Za-z_0-9]*", repl, e)
+    e = re.sub(r"(?<=\d)_(?=\d)", "", e)
+    need(re.fullmatch(r"[\d\s+*()\-]+", e), "%s: cannot evaluate '%s'" % (what, expr))
+    return int(eval(e))
+
+
+def list_after_for(body, var, what):
+    """the bracketed literal iterated by `for <var> in [ ... ]`, or by `for <var> in NAME` with `const NAME: [..] = [ ... ];`"""
+    m = re.search(r"for %s in \[" % var, body)
+    if m:
+        return bracket_after(body, m.start())
+    m = re.search(r"for %s in &?((?:\w+::)*\w+)" % var, body)
+    need(m, what)
+    rhs = const_expr(m.group(1).split("::")[-1])
+    need(rhs.startswith("["), what + " (constant %s is not a list literal)" % m.group(1))
+    return rhs
+
+
+def lists_of_for(body, var):
+    """every `for <var> in <list literal or named constant>` of the body, in order: [(offset, literal text)]"""
+    res = []
+    for m in re.finditer(r"for %s in (\[|&?(?:\w+::)*[A-Z][A-Z_0-9]*\b)" % var, body):
+        if m.group(1) == "[":
+            res.append((m.start(), bracket_after(body, m.start())))
+        else:
+            rhs = const_expr(m.group(1).lstrip("&").split("::")[-1])
+            need(rhs.startswith("["), "constant %s is not a list literal" % m.group(1))
+            res.append((m.start(), rhs))
+    return res
+
+
 def zlist(xs):
     return "[" + "; ".join(str(x) for x in xs) + "]%Z"
 
@@ -227,17 +298,19 @@ def gen_tables():
 def gen_keys():
     z = strip_comments(read("src/chess/zobrist.rs"))
     data = open(os.path.join(REPO, "zobrist_bytes.bin"), "rb").read()
-    m = re.search(r'ZOBRIST_NUMS\s*:\s*&\[u8;\s*(\d+)\]\s*=\s*include_bytes!\("([^"]+)"\)', z)
+    m = re.search(r'(\w+)\s*:\s*&\[u8;\s*(\d+)\]\s*=\s*include_bytes!\("([^"]+)"\)', z)
     need(m, "include_bytes of the key file not found")
-    need(int(m.group(1)) == len(data), "key file length differs from the declared one")
-    need(os.path.basename(m.group(2)) == "zobrist_bytes.bin", "key file name changed")
+    arr = m.group(1)
+    need(int(m.group(2)) == len(data), "key file length differs from the declared one")
+    need(os.path.basename(m.group(3)) == "zobrist_bytes.bin", "key file name changed")
+    mf = re.search(r"fn\s+get_random_nums\s*<\s*const\s+(\w+)\s*:\s*usize\s*>\s*\(\s*(\w+)\s*:\s*usize\s*\)", z)
+    need(mf, "signature of get_random_nums changed")
+    par = mf.group(2)
     body = fn_body(z, "get_random_nums")
-    for k in range(8):
-        pat = r"ZOBRIST_NUMS\[start \+ i \* 8" + (r" \+ %d" % k if k else "") + r"\]"
-        need(re.search(pat, body), "byte %d of the little-endian word not read as expected" % k)
+    order = re.findall(r"%s\[%s \+ (\w+) \* 8(?: \+ (\d))?\]" % (re.escape(arr), re.escape(par)), body)
+    need(len(order) == 8 and len({v for v, _ in order}) == 1, "the eight bytes of a little-endian word are not read as expected")
+    need([int(k or 0) for _, k in order] == list(range(8)), "byte order of the word changed")
     need("u64::from_le_bytes(bytes)" in body, "from_le_bytes not found")
-    order = re.findall(r"ZOBRIST_NUMS\[start \+ i \* 8(?: \+ (\d))?\]", body)
-    need([int(x or 0) for x in order] == list(range(8)), "byte order of the word changed")
 
     def start_of(const, count):
         mm = re.search(r"pub const %s\s*:[^=]*=\s*get_random_nums::<%d>\(([^)]*)\)" % (const, count), z)
@@ -252,7 +325,8 @@ def gen_keys():
     need(mm, "flat PIECE array not found")
     need(re.fullmatch(r"[\d\s+*]+", mm.group(1)), "offset expression of PIECE")
     o_piece = eval(mm.group(1))
-    need(re.search(r"array\[i\]\[j\]\s*=\s*flat_array\[i \* 12 \+ j\]", z), "PIECE reshaping changed")
+    mr = re.search(r"(\w+)\[(\w+)\]\[(\w+)\]\s*=\s*(\w+)\[(\w+) \* 12 \+ (\w+)\]", z)
+    need(mr and mr.group(2) == mr.group(5) and mr.group(3) == mr.group(6) and mr.group(2) != mr.group(3), "PIECE reshaping changed")
     out = [HEADER % "src/chess/zobrist.rs, zobrist_bytes.bin"]
     out.append("From Coq Require Import NArith List String.\nImport ListNotations.\nOpen Scope N_scope.\n")
     out.append('Definition ZOBRIST_SHA256 : string := "%s"%%string.\n' % hashlib.sha256(data).hexdigest())
@@ -276,9 +350,7 @@ def gen_geometry():
     # knight / king generators
     for fn, name in (("get_knight_moves", "GEN_KNIGHT_DELTAS"), ("get_king_moves", "GEN_KING_DELTAS")):
         body = fn_body(piece, fn)
-        m = re.search(r"for delta in \[", body)
-        need(m, "delta list of %s not found" % fn)
-        ds = tuples(bracket_after(body, m.start()))
+        ds = tuples(list_after_for(body, "delta", "delta list of %s not found" % fn))
         need(len(ds) >= 1, "empty delta list in " + fn)
         out.append("Definition %s : list (Z * Z) := %s.\n" % (name, zpairs(ds)))
     # sliders
@@ -309,16 +381,19 @@ def gen_geometry():
     out.append(colfun("PAWN_NORMAL_DELTA", "Z * Z", nd, p))
     out.append(colfun("PAWN_FIRST_DELTA", "Z * Z", fd, p))
     out.append(colfun("PAWN_SIDE_DELTAS", "list (Z * Z)", sd, zpairs))
-    proms = re.findall(r"for new_piece in \[(.*?)\]", body, re.S)
-    need(len(proms) == 2, "expected two promotion loops in get_pawn_moves")
+    proms = [t for _, t in lists_of_for(body, "new_piece")]
+    need(len(proms) in (1, 2), "expected one (shared) or two promotion loops in get_pawn_moves")
     lists = [re.findall(r"PieceType::(\w+)", x) for x in proms]
+    if len(lists) == 1:
+        lists = [lists[0], lists[0]]      # one loop serving the step and the captures
     out.append("Definition PROMOTION_KINDS_PUSH : list kind := [%s].\nDefinition PROMOTION_KINDS_CAPTURE : list kind := [%s].\n" % ("; ".join(lists[0]), "; ".join(lists[1])))
     # is_targeted
     body = fn_body(mod, "is_targeted")
-    fors = [m.start() for m in re.finditer(r"for delta in \[", body)]
-    need(len(fors) == 2, "expected two literal delta loops in is_targeted")
-    kd = tuples(bracket_after(body, fors[0]))
-    nd2 = tuples(bracket_after(body, fors[1]))
+    lf = lists_of_for(body, "delta")
+    need(len(lf) == 2, "expected two delta loops over list literals in is_targeted")
+    fors = [o for o, _ in lf]
+    kd = tuples(lf[0][1])
+    nd2 = tuples(lf[1][1])
     k1 = re.search(r"piece\.piece_type == PieceType::(\w+)", body[fors[0]:fors[1]])
     k2 = re.search(r"piece\.piece_type == PieceType::(\w+)", body[fors[1]:])
     need(k1 and k2, "piece kinds of the delta loops in is_targeted")
@@ -423,18 +498,23 @@ def gen_consts():
     out.append("From Coq Require Import ZArith.\nOpen Scope Z_scope.\n")
     def const(name, val):
         out.append("Definition %s : Z := %d.\n" % (name, val))
-    m = re.search(r"state:\s*ArrayVec<GameState,\s*(\d+)>", mod)
+    m = re.search(r"state:\s*ArrayVec<GameState,\s*((?:\w+::)*\w+)>", mod)
     need(m, "state stack capacity")
-    const("STATE_STACK_CAP", int(m.group(1)))
-    m = re.search(r"moves:\s*&mut ArrayVec<Move,\s*(\d+)>", mod)
+    const("STATE_STACK_CAP", int_value(m.group(1), "constant"))
+    m = re.search(r"moves:\s*&mut ArrayVec<Move,\s*((?:\w+::)*\w+)>", mod)
     need(m, "move buffer capacity")
-    const("MOVE_BUFFER_CAP", int(m.group(1)))
-    m = re.search(r"let mut killer_moves = \[None;\s*(\d+)\]", search)
+    const("MOVE_BUFFER_CAP", int_value(m.group(1), "constant"))
+    m = re.search(r"let mut killer_moves = \[None;\s*([\w\s*+:]+)\]", search)
     need(m, "killer table size")
-    const("KILLER_SLOTS", int(m.group(1)))
-    m = re.search(r"history:\s*&mut \[u16;\s*([\d\s*]+)\]", search)
+    const("KILLER_SLOTS", int_value(m.group(1), "killer table size"))
+    m = re.search(r"history:\s*&mut \[u16;\s*([\w\s*+:]+)\]", search)
+    if not m:
+        # `history: &mut Alias` with `type Alias = [u16; N];`
+        ma = re.search(r"history:\s*&mut (\w+)", search)
+        need(ma, "history size")
+        m = re.search(r"type\s+%s\s*=\s*\[u16;\s*([\w\s*+:]+)\]" % re.escape(ma.group(1)), crate_text())
     need(m, "history size")
-    const("HISTORY_SLOTS", eval(m.group(1)))
+    const("HISTORY_SLOTS", int_value(m.group(1), "history size"))
     def guard_value(src, what):
         """`if game.len() >= <literal or named constant>`; a name is looked up among the crate's `const` items"""
         m = re.search(r"if game\.len\(\) >= ([A-Za-z_0-9:]+)", src)
@@ -451,12 +531,12 @@ def gen_consts():
     const("GAME_LENGTH_GUARD", guard_value(uci, "game length guard in command_position"))
     const("AUTOPLAY_LENGTH_GUARD", guard_value(auto, "game length guard in autoplay"))
     body = fn_body(search, "get_best_move_score")
-    m = re.search(r"Score::MIN \+ (\d+) \+ real_depth as Score", body)
+    m = re.search(r"Score::MIN \+ ((?:\w+::)*\w+) \+ real_depth as Score", body)
     need(m, "mate offset of the main search")
-    const("MATE_OFFSET_NODE", int(m.group(1)))
-    m = re.search(r"if index <= (\d+)", body)
+    const("MATE_OFFSET_NODE", int_value(m.group(1), "constant"))
+    m = re.search(r"if index <= ((?:\w+::)*\w+)", body)
     need(m, "full-window move count of the main search")
-    const("PVS_FULL_WINDOW_LAST_INDEX", int(m.group(1)))
+    const("PVS_FULL_WINDOW_LAST_INDEX", int_value(m.group(1), "constant"))
     m = re.search(r"\(remaining_depth as f64\)\.powf\(([\d.]+)\)", body)
     need(m and float(m.group(1)) == 3.0, "history bonus exponent")
     const("HISTORY_BONUS_EXPONENT", 3)
@@ -466,45 +546,45 @@ def gen_consts():
     const("HISTORY_BONUS_DIVISOR", int(float(m.group(1))))
     need(re.search(r"history\[index\] = history\[index\]\.saturating_add\(real_bonus as u16\)", body), "history update shape")
     body = fn_body(search, "get_best_move_score_depth_1")
-    m = re.search(r"Score::MIN \+ (\d+) \+ real_depth as Score", body)
+    m = re.search(r"Score::MIN \+ ((?:\w+::)*\w+) \+ real_depth as Score", body)
     need(m, "mate offset of depth 1")
-    const("MATE_OFFSET_DEPTH1", int(m.group(1)))
+    const("MATE_OFFSET_DEPTH1", int_value(m.group(1), "constant"))
     body = fn_body(search, "quiescence_search")
-    m = re.search(r"Score::MIN \+ (\d+) \+ real_depth as Score", body)
+    m = re.search(r"Score::MIN \+ ((?:\w+::)*\w+) \+ real_depth as Score", body)
     need(m, "mate offset of quiescence")
-    const("MATE_OFFSET_QUIESCENCE", int(m.group(1)))
+    const("MATE_OFFSET_QUIESCENCE", int_value(m.group(1), "constant"))
     body = fn_body(search, "get_best_move_entry")
-    m = re.search(r"if index <= (\d+)", body)
+    m = re.search(r"if index <= ((?:\w+::)*\w+)", body)
     need(m, "full-window move count of the root")
-    const("ROOT_FULL_WINDOW_LAST_INDEX", int(m.group(1)))
+    const("ROOT_FULL_WINDOW_LAST_INDEX", int_value(m.group(1), "constant"))
     body = fn_body(search, "get_best_move_until_stop")
-    m = re.search(r"best_score > Score::MAX - (\d+)", body)
+    m = re.search(r"best_score > Score::MAX - ((?:\w+::)*\w+)", body)
     need(m, "upper exit threshold")
-    const("EXIT_BAND_HIGH", int(m.group(1)))
-    m = re.search(r"best_score < Score::MIN \+ (\d+)", body)
+    const("EXIT_BAND_HIGH", int_value(m.group(1), "upper exit threshold"))
+    m = re.search(r"best_score < Score::MIN \+ ((?:\w+::)*\w+)", body)
     need(m, "lower exit threshold")
-    const("EXIT_BAND_LOW", int(m.group(1)))
+    const("EXIT_BAND_LOW", int_value(m.group(1), "lower exit threshold"))
     need(re.search(r"max_depth\.is_some_and\(\|d\| d <= depth\)", body), "depth-limit exit test")
     need(re.search(r"for depth in starting_depth\.\.=u8::MAX", body), "iteration range")
     # move_score constants
     body = fn_body(search, "move_score")
-    m = re.search(r"Move::Promotion \{ new_piece, \.\. \} => (\d+) - new_piece\.material_value\(\) as u32 \+ (\d+)", body)
+    m = re.search(r"Move::Promotion \{ new_piece, \.\. \} => ((?:\w+::)*\w+) - new_piece\.material_value\(\) as u32 \+ ((?:\w+::)*\w+)", body)
     need(m, "promotion ordering score")
-    const("ORDER_PROMOTION_BASE", int(m.group(1)) + int(m.group(2)))
-    m = re.search(r"Move::EnPassant \{ \.\. \} => (\d+)", body)
+    const("ORDER_PROMOTION_BASE", int_value(m.group(1), "constant") + int_value(m.group(2), "constant"))
+    m = re.search(r"Move::EnPassant \{ \.\. \} => ((?:\w+::)*\w+)", body)
     need(m, "en passant ordering score")
-    const("ORDER_EN_PASSANT", int(m.group(1)))
-    m = re.search(r"Move::CastlingLong \{ \.\. \} => (\d+)", body)
-    m2 = re.search(r"Move::CastlingShort \{ \.\. \} => (\d+)", body)
+    const("ORDER_EN_PASSANT", int_value(m.group(1), "constant"))
+    m = re.search(r"Move::CastlingLong \{ \.\. \} => ((?:\w+::)*\w+)", body)
+    m2 = re.search(r"Move::CastlingShort \{ \.\. \} => ((?:\w+::)*\w+)", body)
     need(m and m2, "castling ordering score")
-    const("ORDER_CASTLING_LONG", int(m.group(1)))
-    const("ORDER_CASTLING_SHORT", int(m2.group(1)))
-    m = re.search(r"(\d+) \+ piece\.material_value\(\) as u32 - captured_piece\.material_value\(\) as u32", body)
+    const("ORDER_CASTLING_LONG", int_value(m.group(1), "constant"))
+    const("ORDER_CASTLING_SHORT", int_value(m2.group(1), "constant"))
+    m = re.search(r"((?:\w+::)*\w+) \+ piece\.material_value\(\) as u32 - captured_piece\.material_value\(\) as u32", body)
     need(m, "capture ordering score")
-    const("ORDER_CAPTURE_BASE", int(m.group(1)))
-    m = re.search(r"(\d+) - history\[_move\.index_history\(\)\.unwrap\(\)\] as u32", body)
+    const("ORDER_CAPTURE_BASE", int_value(m.group(1), "constant"))
+    m = re.search(r"((?:\w+::)*\w+) - history\[_move\.index_history\(\)\.unwrap\(\)\] as u32", body)
     need(m, "quiet ordering score")
-    const("ORDER_QUIET_BASE", int(m.group(1)))
+    const("ORDER_QUIET_BASE", int_value(m.group(1), "constant"))
     # uci time budget
     m = re.search(r"const FRACTION_OF_TOTAL_TIME: f64 = ([\d.]+);", uci)
     need(m, "FRACTION_OF_TOTAL_TIME")
@@ -516,12 +596,12 @@ def gen_consts():
     need(0 < e < 0x7FF, "fraction must be a normal float")
     const("FRACTION_MANTISSA", frac | (1 << 52))
     const("FRACTION_EXPONENT", e - 1075)
-    m = re.search(r"const LATENCY_MS_COMPENSATE: u64 = (\d+);", uci)
+    m = re.search(r"const LATENCY_MS_COMPENSATE: u64 = ([\d_]+);", uci)
     need(m, "LATENCY_MS_COMPENSATE")
-    const("LATENCY_MS_COMPENSATE", int(m.group(1)))
-    m = re.search(r"time\.saturating_sub\(Duration::from_millis\((\d+)\)\)", uci)
+    const("LATENCY_MS_COMPENSATE", int(m.group(1).replace("_", "")))
+    m = re.search(r"time\.saturating_sub\(Duration::from_millis\(((?:\w+::)*\w+)\)\)", uci)
     need(m, "sleep cut")
-    const("SLEEP_CUT_MS", int(m.group(1)))
+    const("SLEEP_CUT_MS", int_value(m.group(1), "sleep cut"))
     return "\n".join(out)
 
 
